@@ -121,6 +121,18 @@ func c25NewWorld() (*c25World, error) {
 	return &c25World{h: h, store: store, s3: s3}, nil
 }
 
+func (w *c25World) bufferedEnds() map[string]int64 {
+	out := map[string]int64{}
+	w.h.logMu.RLock()
+	defer w.h.logMu.RUnlock()
+	for topic, parts := range w.h.logs {
+		for p, plog := range parts {
+			out[fmt.Sprintf("%s-%d", topic, p)] = plog.BufferedHighWatermark()
+		}
+	}
+	return out
+}
+
 func (w *c25World) close() { w.h.coordinator.Stop() }
 
 func (w *c25World) produce(version int16, acks int16, parts []c25Part, tag string) ([]byte, error) {
@@ -202,6 +214,7 @@ func c25CheckUnhealthy(w *c25World, state broker.S3HealthState, pv, fv, acks int
 	for _, p := range []c25Part{{"orders", 0}, {"payments", 0}, {"payments", 1}} {
 		offBefore[p], _ = w.store.NextOffset(context.Background(), p.Topic, p.Part)
 	}
+	bufBefore := w.bufferedEnds()
 	payload, err := w.produce(pv, acks, pparts, "unhealthy")
 	if err != nil {
 		return fmt.Sprintf("produce returned a connection-level error while %s: %v", state, err), exempted, codes
@@ -234,6 +247,14 @@ func c25CheckUnhealthy(w *c25World, state broker.S3HealthState, pv, fv, acks int
 	}
 	if n := w.s3.writeCount(); n != writesBefore {
 		return fmt.Sprintf("S3 was written while rated %s: %v", state, w.s3.writes[writesBefore:]), exempted, codes
+	}
+	if acks != 0 {
+		// an acknowledged-mode produce must not be taken into the write buffer either
+		for k, v := range w.bufferedEnds() {
+			if old, ok := bufBefore[k]; ok && old != v {
+				return fmt.Sprintf("records were accepted into the write buffer of %s (log end %d -> %d) while S3 is rated %s", k, old, v, state), exempted, codes
+			}
+		}
 	}
 	for p, o := range offBefore {
 		if now, _ := w.store.NextOffset(context.Background(), p.Topic, p.Part); now != o {
@@ -319,6 +340,12 @@ func TestVF_C25_Handler(t *testing.T) {
 				}
 			}
 		}
+		// configuration dimension: KAFSCALE_PRODUCE_SYNC_FLUSH on/off (set after the stored
+		// data was flushed); the backpressure rule is not limited to sync-flush mode
+		w.h.flushOnAck = rapid.IntRange(0, 2).Draw(rt, "syncFlush") > 0
+		if !w.h.flushOnAck {
+			st.Class("sync-flush-off")
+		}
 		latWarn := rapid.SampledFrom([]int64{1, 10, 100, 500}).Draw(rt, "latWarnMs")
 		latCrit := latWarn * rapid.SampledFrom([]int64{2, 3, 6}).Draw(rt, "latCritFactor")
 		errWarn := rapid.IntRange(1, 10).Draw(rt, "errWarn/20")
@@ -391,8 +418,8 @@ func TestVF_C25_Handler(t *testing.T) {
 		if fail != "" {
 			rt.Fatalf("%s\nthresholds lat %d/%d ms err %d/20 %d/20, fed %+v\nproduce v%d acks=%d %v, fetch v%d %v", fail, latWarn, latCrit, errWarn, errCrit, feed, pv, acks, pparts, fv, fparts)
 		}
-		if st.NonTrivial(string(state), latWarn, latCrit, errWarn, errCrit, fmt.Sprint(feed), pv, fv, acks, fmt.Sprint(pparts), fmt.Sprint(fparts)) {
-			st.Sample(map[string]any{"state": state, "fed": feed, "produce": map[string]any{"v": pv, "acks": acks, "parts": pparts}, "fetch": map[string]any{"v": fv, "parts": fparts}})
+		if st.NonTrivial(string(state), w.h.flushOnAck, latWarn, latCrit, errWarn, errCrit, fmt.Sprint(feed), pv, fv, acks, fmt.Sprint(pparts), fmt.Sprint(fparts)) {
+			st.Sample(map[string]any{"state": state, "sync_flush": w.h.flushOnAck, "fed": feed, "produce": map[string]any{"v": pv, "acks": acks, "parts": pparts}, "fetch": map[string]any{"v": fv, "parts": fparts}})
 		}
 	})
 }
